@@ -327,7 +327,7 @@ def run(ctx):
                 r.ok("%s: %d check(s) precede the store" % (m.short, len(rz)))
     # ---------------------------------------------------------------- R10
     r = ctx.rule("C10-R10", "SIBLING", "'written with a verbosity flag' means the same for every kind of output: a method of an output / IO class that overrides a flagged write keeps the "
-                 "overridden method's parameters in their positions (a flag word passed by position must not land in another parameter of the override)", reference=10)
+                 "overridden method's parameters in their positions (a flag word passed by position must not land in another parameter of the override)", reference=1)
     from ..loader import ClassInfo as _CI
     n10 = 0
     for c in sorted(p.classes.values(), key=lambda k: k.qualname):
